@@ -41,6 +41,9 @@ func RunContext(ctx context.Context, env *env.Env, options *Options, stmt ast.St
 	if runInfo.options == nil {
 		runInfo.options = &Options{}
 	}
+	if verifOn {
+		defer verifRun(&runInfo)()
+	}
 	runInfo.runSingleStmt()
 	if len(runInfo.defers) > 0 {
 		runInfo.runDefers()
@@ -53,6 +56,9 @@ func RunContext(ctx context.Context, env *env.Env, options *Options, stmt ast.St
 
 // runSingleStmt executes statement in the specified environment with context.
 func (runInfo *runInfoStruct) runSingleStmt() {
+	if verifOn {
+		defer verifStmt(runInfo)()
+	}
 	select {
 	case <-runInfo.ctx.Done():
 		runInfo.rv = nilValue
@@ -419,6 +425,9 @@ func (runInfo *runInfoStruct) runLoopStmt(stmt *ast.LoopStmt) {
 	runInfo.env = env.NewEnv()
 
 	for {
+		if verifOn {
+			verifPoll(runInfo, "loop")
+		}
 		select {
 		case <-runInfo.ctx.Done():
 			runInfo.err = ErrInterrupt
@@ -494,6 +503,9 @@ func (runInfo *runInfoStruct) runForStmt(stmt *ast.ForStmt) {
 // runForSliceStmt executes a for statement over a slice or array.
 func (runInfo *runInfoStruct) runForSliceStmt(stmt *ast.ForStmt, value reflect.Value) {
 	for i := 0; i < value.Len(); i++ {
+		if verifOn {
+			verifPoll(runInfo, "loop")
+		}
 		select {
 		case <-runInfo.ctx.Done():
 			runInfo.err = ErrInterrupt
@@ -534,6 +546,9 @@ func (runInfo *runInfoStruct) runForSliceStmt(stmt *ast.ForStmt, value reflect.V
 func (runInfo *runInfoStruct) runForMapStmt(stmt *ast.ForStmt, value reflect.Value) {
 	keys := value.MapKeys()
 	for i := 0; i < len(keys); i++ {
+		if verifOn {
+			verifPoll(runInfo, "loop")
+		}
 		select {
 		case <-runInfo.ctx.Done():
 			runInfo.err = ErrInterrupt
@@ -579,6 +594,9 @@ func (runInfo *runInfoStruct) runForChanStmt(stmt *ast.ForStmt, value reflect.Va
 			Dir:  reflect.SelectRecv,
 			Chan: value,
 		}}
+		if verifOn {
+			verifPoll(runInfo, "chanrange")
+		}
 		chosen, runInfo.rv, ok = reflect.Select(cases)
 		if chosen == 0 {
 			runInfo.err = ErrInterrupt
@@ -632,6 +650,9 @@ func (runInfo *runInfoStruct) runCForStmt(stmt *ast.CForStmt) {
 	}
 
 	for {
+		if verifOn {
+			verifPoll(runInfo, "loop")
+		}
 		select {
 		case <-runInfo.ctx.Done():
 			runInfo.err = ErrInterrupt
@@ -826,6 +847,9 @@ func (runInfo *runInfoStruct) runDefers() {
 	runInfo.defers = nil
 	for i := len(defers) - 1; i >= 0; i-- {
 		runInfo.err = nil
+		if verifOn {
+			verifDefer(runInfo, i)
+		}
 		runInfo.callDeferredFunc(defers[i])
 		if runInfo.err != nil && (err == nil || err == ErrReturn) {
 			err = runInfo.err
@@ -961,6 +985,9 @@ func (runInfo *runInfoStruct) runChanStmt(stmt *ast.ChanStmt) {
 	}}
 	var chosen int
 	var ok bool
+	if verifOn {
+		verifPoll(runInfo, "chanrecvstmt")
+	}
 	chosen, runInfo.rv, ok = reflect.Select(cases)
 	if chosen == 0 {
 		runInfo.err = ErrInterrupt
